@@ -303,7 +303,17 @@ func (s *Syncer) walkFetch(ctx context.Context, rootCid cid.Cid, sel selector.Se
 	return traversalOrder, nil
 }
 
-func (s *Syncer) fetch(ctx context.Context, rsrc string, cb func(io.Reader) error) error {
+func (s *Syncer) fetch(ctx context.Context, rsrc string, cb func(io.Reader) error) (err error) {
+	// A fallback to the legacy no-path layout is only kept if it leads to a
+	// successful fetch; otherwise later fetches would all go to the wrong URL.
+	var fellBack bool
+	var pathWithIPNI string
+	defer func() {
+		if err != nil && fellBack {
+			s.noPath = false
+			s.rootURL.Path = pathWithIPNI
+		}
+	}()
 nextURL:
 	fetchURL := s.rootURL.JoinPath(rsrc)
 	var doneRetry bool
@@ -326,6 +336,7 @@ retry:
 			s.rootURL = *s.urls[0]
 			s.urls = s.urls[1:]
 			if s.noPath {
+				pathWithIPNI = s.rootURL.Path
 				s.rootURL.Path = strings.TrimSuffix(s.rootURL.Path, strings.Trim(IPNIPath, "/"))
 			}
 			goto nextURL
@@ -348,6 +359,7 @@ retry:
 		if s.plainHTTP && !s.noPath {
 			// Try again with no path for legacy http.
 			log.Warnw("Plain HTTP got not found response, retrying without IPNI path for legacy HTTP")
+			pathWithIPNI, fellBack = s.rootURL.Path, true
 			s.rootURL.Path = strings.TrimSuffix(s.rootURL.Path, strings.Trim(IPNIPath, "/"))
 			s.noPath = true
 			goto nextURL
@@ -362,6 +374,7 @@ retry:
 		if s.plainHTTP && !s.noPath {
 			// Try again with no path for legacy http.
 			log.Warnw("Plain HTTP got forbidden response, retrying without IPNI path for legacy HTTP")
+			pathWithIPNI, fellBack = s.rootURL.Path, true
 			s.rootURL.Path = strings.TrimSuffix(s.rootURL.Path, strings.Trim(IPNIPath, "/"))
 			s.noPath = true
 			goto nextURL
